@@ -76,7 +76,8 @@ def tail_combo(rng):
     return "-TAGNUM"
 
 
-def join_parts(rng, parts, wf=True):
+def join_parts(rng, parts, wf=True, cuts=None):
+    """`cuts` (a list) receives the offsets at which a separator + part starts (candidates for an optional group)"""
     out = ""
     prev = None
     for p in parts:
@@ -89,6 +90,8 @@ def join_parts(rng, parts, wf=True):
                 # and the right part cannot be confused with what precedes it
                 if (not wf) or (prev in FIXED_WIDTH and (p in FIXED_WIDTH or p in ALPHA_PARTS)):
                     sep = ""
+            if cuts is not None and sep and not sep[0].isdigit():
+                cuts.append(len(out))
             out += sep + p
         prev = p
     return out
@@ -104,8 +107,17 @@ def gen_pattern(rng, wf=True):
         parts = cal + num
         if not parts:
             continue
-        body = join_parts(rng, parts, wf)
+        cuts = []
+        body = join_parts(rng, parts, wf, cuts)
         tail = tail_combo(rng)
+        # ANY trailing run of "separator + part" items may be an optional group (and again inside it): this puts every kind of
+        # part — INC0/INC1, BUILD, calendar parts, MINOR — inside optional groups, not only the README's PATCH/TAG/NUM tails
+        if cuts and rng.random() < 0.3:
+            chosen = sorted(rng.sample(cuts, min(len(cuts), rng.choice([1, 1, 2]))))
+            for k, c in enumerate(reversed(chosen)):
+                body = body[:c] + "[" + body[c:]
+            body = body + tail + "]" * len(chosen)
+            tail = ""
         # nested optional numeric groups, README style: MAJOR[.MINOR[.PATCH[...]]]
         if num == ["MAJOR", "MINOR", "PATCH"] and not cal and rng.random() < 0.4:
             body = "MAJOR[.MINOR[.PATCH%s]]" % tail
